@@ -58,9 +58,10 @@ Assignable(ty, o) ==
     [] ty.k = "arr" ->
          IF o.k = "any" THEN TRUE ELSE IF o.k = "arr" THEN Assignable(ty.elem, o.elem) ELSE FALSE
 
-(* expr_type.go: Merge(other).  The Go code folds the new properties of `other` into `Mapped` in map
-   iteration order; the model folds in PropOrder (the orders agree on every type of the checked
-   universe because its mapped types are absorbing: strict, any, string, object). *)
+(* expr_type.go: Merge(other).  The element type (Mapped) of the result stays an upper bound of all its
+   properties: a closed receiver merged into a map/open object folds its own properties into the other's
+   element type, and every property of the other operand (merged with the receiver's, if any) is folded
+   in as well -- in sorted name order, as the code does (PropOrder is that order). *)
 RECURSIVE Merge(_, _), MergeMapped(_, _, _)
 MergeMapped(m, ps, i) ==
   IF i > Len(ps) THEN m ELSE MergeMapped(Merge(m, ps[i].t), ps, i + 1)
@@ -74,17 +75,19 @@ Merge(ty, o) ==
          IF o.k # "obj" THEN AnyT
          ELSE IF Len(ty.props) = 0 /\ IsLoose(o) THEN o
          ELSE IF Len(o.props) = 0 /\ IsLoose(ty) THEN ty
-         ELSE LET m0  == IF IsStrict(ty) THEN o.m ELSE IF IsStrict(o) THEN ty.m ELSE Merge(ty.m, o.m)
-                  new == SelectSeq(o.props, LAMBDA p : ~HasProp(ty, p.n))
-                  m1  == IF m0.k = "strict" THEN m0 ELSE MergeMapped(m0, new, 1)
+         ELSE LET m0  == IF IsStrict(ty)
+                           THEN IF IsStrict(o) THEN Strict ELSE MergeMapped(o.m, ty.props, 1)
+                           ELSE IF IsStrict(o) THEN ty.m ELSE Merge(ty.m, o.m)
                   F(n) == IF HasProp(ty, n)
                             THEN IF HasProp(o, n) THEN Merge(PropT(ty, n), PropT(o, n)) ELSE PropT(ty, n)
                             ELSE PropT(o, n)
-              IN Obj(MkProps(Names(ty) \cup Names(o), F), m1)
+                  ps  == MkProps(Names(ty) \cup Names(o), F)
+                  fromO == SelectSeq(ps, LAMBDA p : HasProp(o, p.n))
+                  m1  == IF m0.k = "strict" THEN m0 ELSE MergeMapped(m0, fromO, 1)
+              IN Obj(ps, m1)
     [] ty.k = "arr" ->
          IF o.k # "arr" THEN AnyT
-         ELSE IF ty.elem.k = "any" THEN ty
-         ELSE IF o.elem.k = "any" THEN o
+         ELSE IF ty.elem.k = "any" \/ o.elem.k = "any" THEN Arr(AnyT, FALSE)
          ELSE Arr(Merge(ty.elem, o.elem), FALSE)
 
 (* typeOfJSONValue: JSON values are [k |-> "jbool" | "jnum" | "jstr" | "jnull"], [k |-> "jarr", items |-> seq],
